@@ -27,6 +27,7 @@ RULE = ("weak-reference census: every streaming tool (zip, zip strict, map, filt
 RULE += (' Also: chain.from_iterable over a long lazy stream of pages (closeable class iterators keeping their records; plain iterators); groupby without key / identity key read group by group; tee with a real lock where a started child is closed while its sibling holds the lock mid-fetch and that close is cancelled at each suspension point; all streams report len() == 0 (current backlog).')
 RULE += (' Also: sized, lazily produced synchronous datasets as sources of every streaming tool.')
 RULE += (' Also: every tee pattern also over a source without aclose.')
+RULE += (' Also: three started tee children, two closed one after the other in every order.')
 ASSUMPTIONS = ["the bound's constant was read off the unchanged tree with slack; a buffering tool grows linearly and "
                "crosses it within a few steps, so the verdict does not depend on the exact constant"]
 EXHAUSTIVE = {"quick": False, "thorough": False}
@@ -248,6 +249,8 @@ def _tools():
 TOOLS = _tools()
 TEE_PATTERNS = ["lockstep", "lead8", "lag_then_close", "close_unstarted", "three_children", "handle_close_midway",
                 "biglag_close_last", "biglag_close_middle", "biglag_close_first",
+                # three started children, two of them closed one after the other (every order), the third reads on
+                "close_pair_01", "close_pair_10", "close_pair_02", "close_pair_20", "close_pair_12", "close_pair_21",
                 # two consumer tasks and a real lock: a started child is closed while its sibling holds the lock in the
                 # middle of a fetch, and that close is itself cancelled at each of its suspension points
                 "locked_close_while_sibling_fetches_1", "locked_close_while_sibling_fetches_2", "locked_close_while_sibling_fetches_3"]
@@ -378,7 +381,7 @@ def run_tool(case, stats):
 def run_tee(case, stats):
     CTX.reset()
     n, pat = case["n"], case["pattern"]
-    nchild = 3 if pat == "three_children" else 2
+    nchild = 3 if pat == "three_children" or pat.startswith("close_pair_") else 2
     lead = 8 if pat in ("lead8", "lag_then_close") else 1
     census = Census(2 + 2 + lead + nchild)
     stream = BareStream(census, n) if case.get("source") == "bare" else Stream(census, n)
@@ -421,6 +424,22 @@ def run_tee(case, stats):
             async for item in kids[0]:
                 del item
                 census.sample("a only, b closed before its first advance")
+            return
+        if pat.startswith("close_pair_"):
+            first, second = int(pat[-2]), int(pat[-1])
+            reader = 3 - first - second
+            for k in kids:
+                item = await A.anext(k, None)
+                del item
+            census.sample("all three started")
+            await kids[first].aclose()
+            item = await A.anext(kids[reader], None)
+            del item
+            await kids[second].aclose()
+            census.bound = 2 + 2 + 1 + 1
+            async for item in kids[reader]:
+                del item
+                census.sample("one reader left, two siblings closed")
             return
         if pat == "handle_close_midway":
             for _ in range(n // 2):
